@@ -68,6 +68,16 @@ TABLE = {
              "and loss values must not depend on the mask.",
         note="per-term reference gradients come from the all-selected loss (term values are C03-C05's business)",
         ref="DESIGN.md §4 C06"),
+    "C07": dict(
+        technique="history + executable model: the 9-tuple returned by the compiled solve() vs a plain-Python reference loop on the same program",
+        level="exploration",
+        text="Training programs (4 loss kinds x 3 optimizers incl. a chained schedule x batch sizes dividing / not dividing "
+             "the data, crossing >= 2 epoch boundaries x auxiliary generators x tracked specifications x resumed runs) are "
+             "run through the real jinns.solve and through a reference loop that performs one real call at a time; loss "
+             "history, per-term histories, tracked values (after the update), final parameters, optimizer state and the "
+             "advanced generator (exactly) are compared entry by entry.",
+        note="number of priming batches inferred once per worker (0 or 1) and required to stay the same; rtol 1e-6 because optax schedules run in float32",
+        ref="DESIGN.md §4 C07, Appendix A.1"),
     "C08": dict(
         technique="runtime invariant monitor on generator stores and on every batch of long get_batch histories",
         level="exploration",
